@@ -1,0 +1,280 @@
+//go:build verif
+
+package db
+
+// Contracts for property C05 (acknowledged writes are never lost; one accepted child per parent revision).
+// Comment-only; read by /verif/engine.
+//
+// How the property is decomposed (and what is reused from other properties' files -- one contract per function):
+//   step on the tree      RevTree.addRevision (C04: existing ids rejected [rejects], all other entries kept [others],
+//                         exactly one key added [keys]), RevTree.isLeaf, winningRevision, IsIllegalConflict (C04),
+//                         Document.updateWinningRevAndSetDocFlags (C04 [current]: the stored current revision is the winner).
+//   accept step           IsIllegalConflict == false in restricted mode  ==>  accepts(...)   (lemma accept_is_not_illegal
+//                         over the clauses of its contract); the callbacks of Put / PutExistingRev* call addRevision only
+//                         with a parent that passed this check ON THE DOCUMENT THEY WERE HANDED (call-site clauses below).
+//   one child per parent  lemmas one_child_per_parent / one_root / child_becomes_current / chain_step over plusRev
+//                         (= addRevision's postcondition) and isCurrent (= updateWinningRevAndSetDocFlags' postcondition).
+//   never lost            callbacks: [present] (the acknowledged revision id is in the tree that is stored), [kept]
+//                         (no entry that was there is removed or replaced); lemma step_keeps_history. Holds until
+//                         revs_limit pruning (Document.pruneRevisions, C04 [only-deletes]) removes old history.
+//   own, greater sequence DatabaseContext.assignSequence (contract in zz_verif_c11.go; clauses proposed there, see
+//                         report), sequenceAllocator.nextSequenceGreaterThan [above-floor] (C07), nextSequence frame (below).
+//   loser leaves no trace the callback's conflict error reaches the storage layer: Put$1 [conflict-rejected] here,
+//                         documentUpdateFunc `propagates dynamic#1` and updateAndReturnDoc$1 `propagates
+//                         documentUpdateFunc#1` (C11), updateAndReturnDoc [surfaces] (C07/C11).
+//
+// THE SCHEDULE DIMENSION IS REDUCED, NOT EXPLORED. Everything here is a statement about ONE invocation of a
+// callback on ONE document value. That these sequential steps describe concurrent writers rests on one trusted
+// storage contract, which is NOT verified and not even expressible as a Go-level contract of this repository:
+//   sgbucket.DataStore.WriteUpdateWithXattrs(ctx, key, xattrKeys, exp, previous, opts, callback)
+//   (rosmar: Collection.WriteUpdateWithXattrs; gocb: base.Collection.WriteUpdateWithXattrs, the retry loop
+//   around getWithXattrs + the cas-guarded MutateIn of WriteWithXattrs)
+//   (1) invokes callback(value, xattrs, cas) on a (value, xattrs) pair that was the document's content at CAS `cas`;
+//   (2) stores the callback's result only with the condition "the document's CAS is still `cas`";
+//   (3) on a CAS mismatch discards that result, re-reads the document and goes back to (1);
+//   (4) a callback error aborts without any write, and the error is returned.
+// Given (1)-(4) every committed write is a sequential step accepts/plusRev/isCurrent on exactly the state it
+// read, the committed states of one document form a linear sequence, and the lemmas apply to each consecutive
+// pair of any linearisation. Structural half of (1)/(3) on the gateway side: updateAndReturnDoc$1 re-decodes
+// `currentValue`/`currentXattrs` on every invocation and hands THAT document to documentUpdateFunc and hence to
+// the callback (call-site clauses proposed for zz_verif_c11.go, see report); the callbacks keep no decision from
+// an earlier invocation: matchRev/generation are re-derived or re-checked against the new document ([generation],
+// [parent-accepted] hold for every invocation, given the previous one's [generation-kept]).
+// Not decided here: sequence reuse across retries under injected CAS failures, the final changes-feed
+// announcement, HLV-based conflict detection of PutExistingCurrentVersion (C10/C06; its callback is under
+// contract for C09), writes with a conflict resolver (C06).
+
+//@ props C05
+
+// ---- one write step on the revision tree, as a relation between two trees ----
+
+// t2 is t plus the single node (id, parent, deleted): what RevTree.addRevision guarantees on success
+// (its clauses [rejects], [keys], [others], [new-node] in zz_verif_c04.go), written for two maps.
+//@ pred plusRev(t RevTree, t2 RevTree, id string, parent string, deleted bool) bool
+//@   is id != "" && !(id in t) && (parent == "" || (parent in t)) &&
+//@      (forall k string :: {k in t2} (k in t2) <==> (k in t) || k == id) &&
+//@      (forall k string :: {t2[k]} k != id ==> t2[k] == t[k]) &&
+//@      t2[id] != nil && t2[id].ID == id && t2[id].Parent == parent && t2[id].Deleted == deleted
+
+//@ lemma step_keeps_history(t RevTree, t2 RevTree, id string, parent string, deleted bool, k string)
+//@   requires treeWF(t) && plusRev(t, t2, id, parent, deleted)
+//@   ensures[wf]      treeWF(t2)
+//@   ensures[present] (id in t2)
+//@   ensures[kept]    (k in t) ==> (k in t2) && t2[k] == t[k]
+
+// The leaves after the step: the parent stops being a leaf, the new revision is one, nothing else changes.
+// (parentsClosed: no node of t names the absent id as its parent -- addRevision never creates such links.)
+//@ lemma step_leaves(t RevTree, t2 RevTree, id string, parent string, deleted bool, l string)
+//@   requires treeWF(t) && parentsClosed(t) && plusRev(t, t2, id, parent, deleted)
+//@   ensures[parent-covered] parent != "" ==> !leafOf(t2, parent)
+//@   ensures[new-leaf]       leafOf(t2, id)
+//@   ensures[others]         l != id && l != parent ==> (leafOf(t2, l) <==> leafOf(t, l))
+
+// ---- the accept step of the conflict-free mode ----
+
+// current(S): the document's current revision is the winner of its tree ("" for a document without revisions).
+// This is what Document.updateWinningRevAndSetDocFlags establishes ([current], zz_verif_c04.go) before a
+// document is stored, hence what every stored document satisfies.
+//@ pred isCurrent(t RevTree, cur string) bool
+//@   is winnerSpec(t, cur) && (cur == "" || leafOf(t, cur))
+
+// accept(S, w) for a write w = (parent, deleted, docHistory) in restricted mode (allow_conflicts=false or the
+// request forbids conflicts): IsIllegalConflict returns false. By its contract (zz_verif_c04.go, clauses
+// [case-a] [case-b] [case-c] [otherwise]) that is one of the three cases of its comment; `known` stands for
+// "some id of docHistory is in the tree" (case c is refused then), `docDeleted` for the document's Deleted flag
+// (= the current revision is a tombstone, updateWinningRevAndSetDocFlags [deleted]).
+//@ pred accepts(t RevTree, cur string, docDeleted bool, parent string, deleted bool, known bool) bool
+//@   is parent == cur || cur == "" ||
+//@      (deleted && leafOf(t, parent) && !t[parent].Deleted) ||
+//@      (!deleted && docDeleted && !known)
+
+// one accepted child per parent: once a write with parent p (p a revision of the tree) has been accepted and
+// added, and the current revision recomputed, no non-tombstone write that names the same parent is accepted
+// -- whatever the first write was (tombstone or not, case a or b). `known2`: the second write's history
+// contains its own parent, which is in the tree (PutExistingRev: the parent IS the first known id of
+// docHistory; Put checks isLeaf(parent) first, which fails by [parent-covered]).
+//@ lemma one_child_per_parent(t RevTree, t2 RevTree, id string, p string, deleted bool, cur2 string, docDeleted2 bool, known2 bool)
+//@   requires treeWF(t) && parentsClosed(t) && !("" in t) && p != "" && plusRev(t, t2, id, p, deleted)
+//@   requires[recomputed] isCurrent(t2, cur2)
+//@   requires[history2]   known2
+//@   ensures[new-current-not-parent] cur2 != "" && cur2 != p
+//@   ensures[second-rejected]        !accepts(t2, cur2, docDeleted2, p, false, known2)
+//@   ensures[put-rejected]           !leafOf(t2, p)
+
+// The same for the root: of two concurrent creations of a document (parent ""), the second is refused once the
+// first -- a non-tombstone -- has been stored. (After a TOMBSTONE root, a second non-tombstone root is accepted
+// by design: case c, "disconnected branch resurrection"; hence the hypothesis that the first write is live.)
+//@ lemma one_root(t RevTree, t2 RevTree, id string, cur2 string, known2 bool)
+//@   requires (forall k string :: {k in t} !(k in t)) && plusRev(t, t2, id, "", false)
+//@   requires[recomputed] isCurrent(t2, cur2)
+//@   ensures[new-current]     cur2 == id
+//@   ensures[second-rejected] !accepts(t2, cur2, t2[cur2].Deleted, "", false, known2) && !accepts(t2, cur2, t2[cur2].Deleted, "", true, known2)
+
+// What IsIllegalConflict's contract (zz_verif_c04.go) says, read as a step contract: in restricted mode a `false`
+// answer implies accepts(...). r = the result; a = icCaseA; the hypotheses are its clauses [case-b], [case-c]
+// (with `known` for the existential over docHistory) and [otherwise], for a document whose Deleted flag is docDeleted.
+//@ lemma accept_is_not_illegal(t RevTree, cur string, docDeleted bool, parent string, deleted bool, known bool, r bool)
+//@   requires[case-b]    !(parent == cur || cur == "") && deleted && !r ==> leafOf(t, parent) && !t[parent].Deleted
+//@   requires[case-c]    !(parent == cur || cur == "") && !deleted && docDeleted ==> (r <==> known)
+//@   requires[otherwise] !(parent == cur || cur == "") && !deleted && !docDeleted ==> r
+//@   ensures[accept]     !r ==> accepts(t, cur, docDeleted, parent, deleted, known)
+
+// The plan's form: live current revision, first write a non-tombstone child of it with a higher generation
+// (addRevision [parent-gen]): the new child IS the new current revision -- the history stays a single chain.
+//@ lemma child_becomes_current(t RevTree, t2 RevTree, id string, cur string, cur2 string)
+//@   requires treeWF(t) && parentsClosed(t) && idsOK(t) && revOK(id) && plusRev(t, t2, id, cur, false)
+//@   requires[live-current] cur != "" && isCurrent(t, cur) && !t[cur].Deleted
+//@   requires[generation]   revGenOf(id) > revGenOf(cur)
+//@   requires[recomputed]   isCurrent(t2, cur2)
+//@   ensures[new-current]   cur2 == id
+
+// chain: a tree with a single leaf keeps a single leaf when the accepted write extends the current revision
+// (case a), tombstone or not.
+//@ lemma chain_step(t RevTree, t2 RevTree, id string, cur string, deleted bool)
+//@   requires treeWF(t) && parentsClosed(t) && plusRev(t, t2, id, cur, deleted)
+//@   requires[chain] oneLeafAtMost(t) && (cur == "" || leafOf(t, cur)) && (cur == "" ==> (forall l string :: {l in t} !leafOf(t, l)))
+//@   ensures[chain]  oneLeafAtMost(t2) && leafOf(t2, id)
+
+// ---- the write callbacks (run by updateAndReturnDoc inside the storage layer's CAS loop, on the document as re-read) ----
+
+// OnDemandImportForWrite is TRUSTED (thin frame contract). Its body imports the bucket document through
+// ImportDoc -> importDoc -> updateAndReturnDoc, i.e. a nested write on a document that the nested call
+// unmarshals itself; the *Document it is handed is only read (ImportDoc re-marshals it; Document.Body caches the
+// decoded body in doc._body/_rawBody), except on base.ErrImportCancelledFilter, where `doc.SyncData =
+// SyncData{History: make(RevTree)}` (in OnDemandImportForWrite) replaces the sync data by an empty one. (`doc = importedDoc`,
+// a few lines below, assigns the parameter only.) It does not write the local variables of its caller, and no
+// RevInfo node or RevTree map that existed before. Bucket, caches, statistics are not modelled.
+//@ func DatabaseCollectionWithUser.OnDemandImportForWrite
+//@   trusted
+//@   modifies doc.SyncData, doc._body, doc._rawBody
+//@   ensures[same-or-empty-tree] doc.History == old(doc.History) ||
+//@                               (doc.History != nil && !old(allocated(now(doc.History))) && (forall k string :: {k in doc.History} !(k in doc.History)))
+
+// Put's callback. Preconditions = what updateAndReturnDoc / documentUpdateFunc hand to it and what Put
+// established before (they are assumptions at the storage layer's call site, which is outside the repository):
+// a decoded document with an allocated, well-formed tree (NewDocument / unmarshal, treeWF = C04's representation
+// invariant); a usable collection; newDoc is Put's own fresh document; [generation] the captured generation is the
+// one of the captured parent (Put/assert/generation below for the first invocation, [generation-kept] of the previous
+// invocation for a retry); [atts-tree] the attachment metadata is a decoded JSON value (its entries are maps that
+// exist already, needed by storeAttachments' precondition, C14).
+// Call-site clauses, all evaluated in the state in which addRevision is called, i.e. on the document of THIS invocation:
+//   [parent-accepted]  in restricted mode the new revision's parent satisfies accepts(...) -- with known == false,
+//                      because Put passes docHistory == nil (so on a tombstoned document every tombstoned LEAF is an
+//                      acceptable parent for a non-tombstone: case c degenerates to the isLeaf check);
+//   [parent-is-leaf]   the parent is the current revision or a leaf (never an inner node: no second child);
+//   [root-only-when-empty] a root is added only to a document without current revision (a creation);
+//   [generation]       the new id is the one just generated, one generation above its parent.
+// Results: a refused check / failed addRevision is an error (nothing is stored: C11); on success the acknowledged
+// revision id is in the tree ([present]) and every entry that was in the tree is still there, unchanged ([kept]; the
+// exception is the on-demand import of a non-gateway document refused by the import filter, which restarts the
+// history by design: `doc.SyncData = SyncData{History: make(RevTree)}` in OnDemandImportForWrite).
+//@ func DatabaseCollectionWithUser.Put$1
+//@   props C05 C09
+//@   requires doc != nil && doc.History != nil && treeWF(doc.History)
+//@   requires db != nil && db.DatabaseCollection != nil && db.DatabaseCollection.dbCtx != nil && newDoc != nil && newDoc != doc
+//@   requires[generation] generation == pGen(matchRev) + 1
+//@   requires[atts-tree] forall n string :: {n in originalBodyAtts} (n in originalBodyAtts) ==> attMeta(originalBodyAtts[n]) == nil || allocated(attMeta(originalBodyAtts[n]))
+//@   modifies *
+//@   before[tree]   call addRevision#1 $0 == doc.History
+//@   before[parent] call addRevision#1 $3.Parent == matchRev && $3.Deleted == deleted
+//@   before[parent-accepted] call addRevision#1 !icRestricted(db, false) || accepts(doc.History, doc.SyncData.GetRevTreeID(), doc.SyncData.IsDeleted(), $3.Parent, $3.Deleted, false)
+//@   before[parent-is-leaf]  call addRevision#1 $3.Parent == doc.SyncData.GetRevTreeID() || leafOf(doc.History, $3.Parent)
+//@   before[root-only-when-empty] call addRevision#1 $3.Parent == "" ==> doc.SyncData.GetRevTreeID() == ""
+//@   before[generation]      call addRevision#1 $3.ID == callres(CreateRevIDWithBytes, 1, 0) && (pGen($3.Parent) >= 0 ==> revOK($3.ID) && revGenOf($3.ID) == pGen($3.Parent) + 1)
+//@   ensures[conflict-rejected] called(IsIllegalConflict, 1) && callres(IsIllegalConflict, 1, 0) ==> !isNilErr(resultErr)
+//@   ensures[non-leaf-rejected] called(isLeaf, 1) && !callres(isLeaf, 1, 0) ==> !isNilErr(resultErr)
+//@   ensures[add-failure-rejected] called(addRevision, 1) && !isNilErr(callres(addRevision, 1, 0)) ==> !isNilErr(resultErr)
+//@   ensures[present] isNilErr(resultErr) ==> called(addRevision, 1) && isNilErr(callres(addRevision, 1, 0)) && resultDoc == newDoc && resultDoc.RevID == callres(CreateRevIDWithBytes, 1, 0) && (resultDoc.RevID in doc.History)
+//@   ensures[kept]    isNilErr(resultErr) && !called(OnDemandImportForWrite, 1) ==> doc.History == old(doc.History) && (forall k string :: {k in doc.History} {doc.History[k]} old(k in doc.History) ==> (k in doc.History) && doc.History[k] == old(doc.History[k]))
+//@   ensures[generation-kept] isNilErr(resultErr) ==> generation == pGen(matchRev) + 1
+// (C09, clauses contributed by the C09 contract set -- import-before-write only for external writes: the own-write check
+// runs on this invocation's doc (body-less variant); the import is requested exactly when the check says "not the
+// gateway's write", it is given this invocation's doc, and an import error aborts the write.)
+//@   ensures[own-write-not-imported]  called(IsSGWrite, 1) && callres(IsSGWrite, 1, 0) ==> !called(OnDemandImportForWrite, 1)
+//@   ensures[import-only-after-check] called(OnDemandImportForWrite, 1) ==> called(IsSGWrite, 1) && !callres(IsSGWrite, 1, 0)
+//@   ensures[external-imported-first] doc != nil && isNilErr(resultErr) && !callres(IsSGWrite, 1, 0) ==> called(OnDemandImportForWrite, 1) && isNilErr(callres(OnDemandImportForWrite, 1, 0))
+//@   before[this-doc]   call IsSGWrite#1 $0 == doc && len($2) == 0
+//@   before[import-doc] call OnDemandImportForWrite#1 $3 == doc
+
+// PutExistingRev / PutExistingRevWithBody / PutExistingRevWithConflictResolution (replication push, bulk_docs new_edits=false).
+// Scope [no-resolver]: the configuration the property is about -- a writer that loses receives a conflict error.
+// With a conflict resolver (active ISGR replicator only) a refused write is merged instead (property C06).
+// The new revisions docHistory[currentRevIndex-1 .. 0] are added as a chain ([chain]) below `parent`, the first id
+// of docHistory that the tree knows ("" if none: loop 1 [unknown-so-far]); only that first link has an existing
+// parent, and it passed the conflict check ([first-parent-accepted]; known = "parent != \"\"" because the parent
+// itself is an id of docHistory that is in the tree). allowConflictingTombstone is the documented exception for
+// ISGR pulls (tombstone onto tombstone).
+//@ func DatabaseCollectionWithUser.PutExistingRevWithConflictResolution$1
+//@   props C05 C09
+//@   requires doc != nil && doc.History != nil && treeWF(doc.History)
+//@   requires db != nil && db.DatabaseCollection != nil && db.DatabaseCollection.dbCtx != nil && newDoc != nil && newDoc != doc
+//@   requires[no-resolver] opts.ConflictResolver == nil
+//@   requires[new-rev]     len(docHistory) > 0 && newRev == docHistory[0]
+//@   requires[atts-tree] forall n string :: {n in originalNewDocAtts} (n in originalNewDocAtts) ==> attMeta(originalNewDocAtts[n]) == nil || allocated(attMeta(originalNewDocAtts[n]))
+//@   modifies *
+//@   loop 1 invariant[unknown-so-far] forall k int :: {docHistory[k]} 0 <= k && k <= #index ==> !(docHistory[k] in doc.History)
+//@   loop 1 invariant[tree]           doc.History != nil && treeWF(doc.History)
+//@   loop 3 invariant[range]  -1 <= i && i < currentRevIndex && currentRevIndex <= len(docHistory)
+//@   loop 3 invariant[tree]   doc.History != nil && treeWF(doc.History)
+//@   loop 3 invariant[first]  i == currentRevIndex - 1 ==> allowConflictingTombstone || !icRestricted(db, opts.NoConflicts) || accepts(doc.History, doc.SyncData.GetRevTreeID(), doc.SyncData.IsDeleted(), parent, newDoc.Deleted, parent != "")
+//@   loop 3 invariant[chain]  i < currentRevIndex - 1 ==> parent == docHistory[i + 1]
+//@   loop 3 invariant[added]  forall k int :: {docHistory[k]} i < k && k < currentRevIndex ==> (docHistory[k] in doc.History)
+//@   loop 3 invariant[kept]   doc.History == old(doc.History) ==> (forall k string :: {k in doc.History} {doc.History[k]} old(k in doc.History) ==> (k in doc.History) && doc.History[k] == old(doc.History[k]))
+//@   before[tree]   call addRevision#1 $0 == doc.History
+//@   before[first-parent-accepted] call addRevision#1 i == currentRevIndex - 1 ==> allowConflictingTombstone || !icRestricted(db, opts.NoConflicts) || accepts(doc.History, doc.SyncData.GetRevTreeID(), doc.SyncData.IsDeleted(), $3.Parent, newDoc.Deleted, $3.Parent != "")
+//@   before[chain]  call addRevision#1 $3.ID == docHistory[i] && (i < currentRevIndex - 1 ==> $3.Parent == docHistory[i + 1])
+//@   ensures[conflict-rejected] called(IsIllegalConflict, 1) && callres(IsIllegalConflict, 1, 0) ==> !isNilErr(resultErr)
+//@   ensures[present] isNilErr(resultErr) ==> resultDoc == newDoc && resultDoc.RevID == newRev && (newRev in doc.History)
+//@   ensures[kept]    isNilErr(resultErr) && doc.History == old(doc.History) ==> (forall k string :: {k in doc.History} {doc.History[k]} old(k in doc.History) ==> (k in doc.History) && doc.History[k] == old(doc.History[k]))
+//@   ensures[known-rev-cancels] !called(OnDemandImportForWrite, 1) && old(newRev in doc.History) ==> resultErr == box(base.ErrUpdateCancel)
+//@   ensures[add-failure-rejected] called(addRevision, 1) && !isNilErr(callres(addRevision, 1, 0)) ==> !isNilErr(resultErr)
+// (C09, clauses contributed by the C09 contract set -- import-before-write only for external writes: the own-write check
+// runs on this invocation's doc (body-less variant); the import is requested exactly when the check says "not the
+// gateway's write", it is given this invocation's doc, and an import error aborts the write.)
+//@   ensures[own-write-not-imported]  called(IsSGWrite, 1) && callres(IsSGWrite, 1, 0) ==> !called(OnDemandImportForWrite, 1)
+//@   ensures[import-only-after-check] called(OnDemandImportForWrite, 1) ==> called(IsSGWrite, 1) && !callres(IsSGWrite, 1, 0)
+//@   ensures[external-imported-first] doc != nil && isNilErr(resultErr) && !callres(IsSGWrite, 1, 0) ==> called(OnDemandImportForWrite, 1) && isNilErr(callres(OnDemandImportForWrite, 1, 0))
+//@   before[this-doc]   call IsSGWrite#1 $0 == doc && len($2) == 0
+//@   before[import-doc] call OnDemandImportForWrite#1 $3 == doc
+
+// ---- sequences ----
+
+// sequenceAllocator.nextSequence is TRUSTED (thin frame contract, no precondition): its body is
+// `s.mutex.Lock(); sequence, reserved, err := s._nextSequence(ctx); s.mutex.Unlock()` followed by a send on
+// s.reserveNotify (channel operations are outside the verified subset). _nextSequence is verified (C07,
+// zz_verif_c07.go): it writes the allocator's own fields and the shared counter (ghost view), nothing else; on
+// error the result is 0 (`return 0, err`). In particular it does not write the document that
+// assignSequence is about to stamp.
+//@ func sequenceAllocator.nextSequence
+//@   trusted
+//@   modifies reservedAll, syncCounter, s.max, s.last, s.sequenceBatchSize, s.lastSequenceReserveTime
+//@   ensures[error-zero] !isNilErr(err) ==> sequence == 0
+
+// ---- the outer functions: what they hand to updateAndReturnDoc establishes the callbacks' preconditions ----
+
+// Body.ExtractExpiry is TRUSTED (thin frame contract): body.getExpiry reads body["_exp"] and converts it with
+// base.ReflectExpiry (a type switch over the value: float64/int64/json.Number/string parsing, time.Parse -- no heap
+// writes); the only write is `delete(body, "_exp")`.
+//@ func Body.ExtractExpiry
+//@   trusted
+//@   modifies elems(body)
+
+// Put hands updateAndReturnDoc a callback whose captured `generation` is the generation of the `_rev` it was
+// given plus one (0+1 for a document creation), and refuses a malformed `_rev` before anything else happens.
+//@ func DatabaseCollectionWithUser.Put
+//@   modifies *
+//@   before[generation] call updateAndReturnDoc#1 pGen(matchRev) >= 0 && generation == pGen(matchRev) + 1
+//@   before[new-doc]    call updateAndReturnDoc#1 newDoc != nil
+
+// PutExistingRevWithConflictResolution hands updateAndReturnDoc a callback whose captured newRev is the first id
+// of the history it was given (callback precondition [new-rev]; len(docHistory) > 0 is implied by the index
+// expression opts.RevTreeHistory[0] having been evaluated without a panic).
+//@ func DatabaseCollectionWithUser.PutExistingRevWithConflictResolution
+//@   modifies *
+//@   before[new-rev] call updateAndReturnDoc#1 newRev == docHistory[0] && newDoc == opts.NewDoc
+
+// PutExistingRev (and through it PutExistingRevWithBody: replication push without resolver, bulk_docs
+// new_edits=false) never passes a conflict resolver: callback precondition [no-resolver].
+//@ func DatabaseCollectionWithUser.PutExistingRev
+//@   modifies *
+//@   before[no-resolver] call PutExistingRevWithConflictResolution#1 $2.ConflictResolver == nil && $2.NewDoc == newDoc && $2.NoConflicts == noConflicts
